@@ -220,16 +220,6 @@ def infoLetter (k : Bytes) : String :=
   | "Title" => "T" | "Author" => "A" | "Subject" => "S" | "Keywords" => "K"
   | "Creator" => "C" | "Producer" => "P" | s => s
 
-/-- `PdfString::to_text` (no BOM): every byte through `winansi_decode_char`, printed as UTF-8;
-    bytes 0x80–0x9F (the Windows-1252 specials) are outside what the generator produces -/
-def toTextUtf8 : Bytes → Option Bytes
-  | [] => some []
-  | b :: r =>
-    if b < 128 then (toTextUtf8 r).map (b :: ·)
-    else if 160 ≤ b && b < 192 then (toTextUtf8 r).map (194 :: b :: ·)
-    else if 192 ≤ b && b < 256 then (toTextUtf8 r).map (195 :: (b - 64) :: ·)
-    else none
-
 def showInfo (l : List (Bytes × Bytes)) : String :=
   if l.isEmpty then "-" else ";".intercalate (l.map fun e =>
     infoLetter e.1 ++ ":" ++ (match toTextUtf8 e.2 with
